@@ -71,6 +71,7 @@ type c05Bomb struct {
 
 func c05Cfg() core.GenCfg {
 	c := c01Cfg()
+	c.Huge = false // every base message is mutated hundreds of times
 	c.MaxBytes = 1024
 	c.RequiredBias = 10
 	return c
